@@ -160,7 +160,7 @@ func extraMods(eng *Engine, callee *ssa.Function, c *ssa.CallCommon, m *Modset) 
 	case "(*bytes.Buffer).Reset":
 		m.ghost["hashP"] = true
 		return true
-	case "(*bytes.Buffer).Bytes", "path/filepath.Join", "os.ReadDir", "os.ReadFile":
+	case "(*bytes.Buffer).Bytes", "path/filepath.Join", "os.ReadDir", "os.ReadFile", "(*text/template.Template).Execute":
 		return true
 	}
 	return false
@@ -182,6 +182,9 @@ func (fr *Frame) extraExternal(ins ssa.Instruction, fn *ssa.Function, c *ssa.Cal
 		n := fx.s.freshConst("buflen", "Int")
 		fx.s.assume(st.guard, "(>= "+n+" 0)")
 		return []Val{{t: fmt.Sprintf("(mkslice (- 1) 0 %s %s)", n, n)}}, true
+	case "(*text/template.Template).Execute":
+		fx.trusted["(*text/template.Template).Execute(w, data): writes only to w, reads data by reflection without modifying it, returns an error instead of panicking (text/template recovers run-time panics of the functions it calls); what it writes is not modelled"] = true
+		return fr.havocResults(c, st), true
 	case "(*bytes.Buffer).Reset":
 		st.ghost["hashP"] = "false"
 		return nil, true
